@@ -644,6 +644,10 @@ class Calls(Exec):
             m = self.ev1(a[0], st)
             ch = self.ev1(a[1], st)
             return VBool(self.holds(st, m, ch, node))
+        if name == 'keyis':
+            # keyis(k, 'literal'): the key bound by forall_keys is that literal key
+            k = self.ev1(a[0], st)
+            return VBool(self.key_term(k) == self.lit_key(a[1].value))
         if name == 'uf_real':
             # uf_real('name', a, b, ...): an uninterpreted real-valued function of the (opaque ids of the) arguments
             fname = a[0].value
